@@ -559,7 +559,7 @@ type BCase struct {
 
 var propBox = hx.Prop[BCase]{
 	ID: pid, Name: "box",
-	Rule: "one mailbox (mem or file, cap 0/3) receives 3-14 SMTP deliveries whose bodies name their sequence number, interleaved with REST deletions " +
+	Rule: "one mailbox (mem or file, cap 0/3) receives 3-14 SMTP deliveries whose bodies (one line of 0 to 70000 bytes) name their sequence number, interleaved with REST deletions " +
 		"of the first, a middle or the last message, all within the same second or two; afterwards every message still listed must be, on the store, " +
 		"the REST source endpoint and POP3 RETR, exactly the content transmitted for it, with a matching size; non-trivial = a deletion of a " +
 		"non-last message is followed by a delivery; distinct = distinct case JSON",
@@ -571,7 +571,7 @@ var propBox = hx.Prop[BCase]{
 			if i >= 2 && rapid.IntRange(0, 2).Draw(t, "del") == 0 {
 				c.Steps = append(c.Steps, -1-rapid.IntRange(0, 5).Draw(t, "which"))
 			} else {
-				c.Steps = append(c.Steps, rapid.SampledFrom([]int{0, 10, 200, 3000}).Draw(t, "size"))
+				c.Steps = append(c.Steps, rapid.SampledFrom([]int{0, 10, 200, 3000, 3000, 70000}).Draw(t, "size"))
 			}
 		}
 		return c
